@@ -17,7 +17,10 @@ mod metrics;
 pub mod testonly;
 mod v2_chonky_bft;
 #[cfg(feature = "verif_hooks")]
-pub mod verif;
+pub mod verif {
+    //! Verification hooks (see `v2_chonky_bft::verif`).
+    pub use crate::v2_chonky_bft::verif::*;
+}
 
 // Renaming network messages for clarity.
 #[allow(missing_docs)]
